@@ -2,6 +2,7 @@
 //   xcpsim run  < job.json   > result.json
 //   xcpsim serve             (one job per input line, one result per output line)
 
+mod elf;
 mod sandbox;
 mod sup;
 mod sys;
@@ -70,6 +71,14 @@ fn run_job(job: &Value) -> Value {
         est: gu(s, "est").unwrap_or(400),
         starve: s.get("starve").and_then(|v| v.as_array()).map(|a| a.iter().filter_map(|x| x.as_str().map(|y| y.to_string())).collect()).unwrap_or_default(),
         starve_p: s.get("starve_p").and_then(|v| v.as_f64()).unwrap_or(0.02),
+        ustep_p: s.get("ustep_p").and_then(|v| v.as_f64()).unwrap_or(0.0),
+        ustep_max: gu(s, "ustep_max").unwrap_or(200),
+        ustep_main: gb(s, "ustep_main"),
+        ustep_aim: gb(s, "ustep_aim"),
+        ustep_locks: gu(s, "ustep_locks").unwrap_or(0),
+        ustep_after: gu(s, "ustep_after").unwrap_or(24),
+        ustep_hold: gu(s, "ustep_hold").unwrap_or(0),
+        ustep_budget: gu(s, "ustep_budget").unwrap_or(20000),
         list: s.get("list").and_then(|v| v.as_array()).map(|a| a.iter().filter_map(|x| x.as_u64().map(|y| y as usize)).collect()).unwrap_or_default(),
     };
     let faults: Vec<Fault> = job
